@@ -327,6 +327,9 @@ class Interp:
         self.native_only: set = set()      # repo functions forced native
         self.on_assert = None              # hook(interp, cond, node, env)
         self.is_hook = None                # hook(a, b) -> value or NotImplemented
+        # C17: hook(list of the elements of a set/frozenset) -> list in the
+        # iteration order to be used (adversarial hash order)
+        self.unordered_hook = None
         self.steps = 0
         self.max_steps = 5_000_000
 
@@ -381,6 +384,8 @@ class Interp:
                 self._log("intercept", _qn(f))
                 return h(self, (fn.__self__, *args), kwargs)
             self._log("native", _qn(f))
+            if self.unordered_hook is not None:
+                args = self._order_args(f, fn.__self__, args)
             return fn(*args, **kwargs)
         if isinstance(fn, InterpFunction):
             return self.call_interp_function(fn, args, kwargs)
@@ -450,7 +455,24 @@ class Interp:
                     cf in self.contracts or self.is_repo_function(cf)):
                 return self.call(types.MethodType(cf, fn), args, kwargs)
         self._log("native", _qn(fn))
+        if self.unordered_hook is not None:
+            args = self._order_args(fn, getattr(fn, "__self__", None), args)
         return fn(*args, **kwargs)
+
+    def _order_args(self, fn, owner, args):
+        """Native consumers that reveal the iteration order of a set get the
+        elements in the order the hook picks."""
+        if not any(type(a) in (set, frozenset) and len(a) > 1 for a in args):
+            return args
+        from . import unordered
+        kind = unordered.classify(fn, owner)
+        if kind == "reveals":
+            return tuple(self.unordered_hook(list(a))
+                         if type(a) in (set, frozenset) and len(a) > 1 else a
+                         for a in args)
+        if kind != "insensitive":
+            self._log("unordered-to-unclassified-native", _qn(fn))
+        return args
 
     def call_repo_function(self, fn, args, kwargs):
         node = SOURCES.lookup(fn)
@@ -884,8 +906,10 @@ class Interp:
         return bool(v)
 
     def iterate(self, v):
-        if isinstance(v, (set, frozenset)) and len(v) > 1:
+        if type(v) in (set, frozenset) and len(v) > 1:
             self._log("unordered-iteration", type(v).__name__)
+            if self.unordered_hook is not None:
+                return iter(self.unordered_hook(list(v)))
         return iter(v)
 
     def eval(self, e, env):
@@ -1310,11 +1334,13 @@ def _i_hasattr(interp, args, kwargs):
 
 def _i_map(interp, args, kwargs):
     f, *its = args
+    its = [interp.iterate(i) for i in its]
     return (interp.call(f, xs) for xs in zip(*its, strict=False))
 
 
 def _i_filter(interp, args, kwargs):
     f, it = args
+    it = interp.iterate(it)
     if f is None:
         return (x for x in it if interp.truth(x))
     return (x for x in it if interp.truth(interp.call(f, (x,))))
@@ -1322,6 +1348,7 @@ def _i_filter(interp, args, kwargs):
 
 def _i_filterfalse(interp, args, kwargs):
     f, it = args
+    it = interp.iterate(it)
     if f is None:
         return (x for x in it if not interp.truth(x))
     return (x for x in it if not interp.truth(interp.call(f, (x,))))
@@ -1329,7 +1356,7 @@ def _i_filterfalse(interp, args, kwargs):
 
 def _i_reduce(interp, args, kwargs):
     f, it, *init = args
-    it = iter(it)
+    it = interp.iterate(it)
     if init:
         acc = init[0]
     else:
